@@ -425,6 +425,8 @@ def call(ex, callee, args):
         return Agg("Pin", None, {0: args[0]})
     if base == "std::pin::Pin::as_mut":
         p = deref_all(ex, args[0])
+        if isinstance(p, Fut):
+            return Agg("Pin", None, {0: args[0]})      # an oracle future stands for the whole Pin<Box<dyn Future>>
         inner = p.fields[0]
         if isinstance(inner, Agg) and inner.ty == "Box":
             inner = unbox(ex, inner)
@@ -555,6 +557,16 @@ def call(ex, callee, args):
             return v
         if isinstance(v, VecV):
             return args[0]
+    if tt and tt[1] in ("std::ops::Deref", "std::ops::DerefMut") and tt[2] in ("deref", "deref_mut") and tt[0].startswith("std::pin::Pin<"):
+        g = deref_all(ex, args[0])
+        if isinstance(g, Agg) and g.ty == "Pin":
+            model("Pin<&mut T>::deref(_mut) = the pointee")
+            inner = g.fields[0]
+            return unbox(ex, inner) if isinstance(inner, Agg) and inner.ty == "Box" else inner
+    if base in ("std::pin::Pin::get_mut", "std::pin::Pin::get_unchecked_mut", "std::pin::Pin::get_ref", "std::pin::Pin::into_inner"):
+        g = args[0]
+        if isinstance(g, Agg) and g.ty == "Pin":
+            return g.fields[0]
     if tt and tt[1] in ("std::ops::Deref", "std::ops::DerefMut") and tt[2] in ("deref", "deref_mut") and "MutexGuard" in tt[0]:
         g = deref_all(ex, args[0])
         if isinstance(g, Agg) and g.ty == "MutexGuard":
@@ -934,6 +946,34 @@ def call(ex, callee, args):
         if isinstance(args[0], Ref) and args[0].cell.ro:
             raise Panic(f"WRITE-TO-SHARED-STATE: Vec::{last} in read-only region {args[0].cell.name}")
         v = deref_all(ex, args[0])
+        if isinstance(v, VecV) and v.items is None and last in ("truncate", "pop", "swap_remove", "remove"):
+            # an arbitrary list: the result is described by a fresh list id related to the old one
+            model(f"Vec::{last} on an arbitrary list (fresh id, elementwise relation to the old one)")
+            old_id = v.abs
+            ex.assume(vec_len(old_id) >= 0)
+            j = z3.Int("j!vec")
+            if last == "truncate":
+                n = ex.zi(args[1])
+                nid = ex.fresh("vec", z3.IntSort())
+                ex.assume(vec_len(nid) == z3.If(n < vec_len(old_id), n, vec_len(old_id)))
+                ex.assume(z3.ForAll([j], z3.Implies(z3.And(j >= 0, j < vec_len(nid)), vec_at(nid, j) == vec_at(old_id, j))))
+                v.abs = nid
+                return Agg("tuple")
+            if last == "pop":
+                if ex.choose([("some", vec_len(old_id) > 0), ("none", vec_len(old_id) <= 0)], "vec-pop") == "none":
+                    return NONE()
+                nid = ex.fresh("vec", z3.IntSort())
+                ex.assume(vec_len(nid) == vec_len(old_id) - 1)
+                ex.assume(z3.ForAll([j], z3.Implies(z3.And(j >= 0, j < vec_len(nid)), vec_at(nid, j) == vec_at(old_id, j))))
+                v.abs = nid
+                return some(SymVal(vec_at(old_id, vec_len(old_id) - 1)))
+            n = ex.zi(args[1])
+            if ex.choose([("in", z3.And(n >= 0, n < vec_len(old_id))), ("out", z3.Not(z3.And(n >= 0, n < vec_len(old_id))))], "vec-remove") == "out":
+                raise Panic(f"Vec::{last} index out of bounds")
+            nid = ex.fresh("vec", z3.IntSort())
+            ex.assume(vec_len(nid) == vec_len(old_id) - 1)        # the remaining elements are left unspecified (sound: fewer facts)
+            v.abs = nid
+            return SymVal(vec_at(old_id, n))
         if not isinstance(v, VecV) or v.items is None:
             raise Unsupported(f"Vec::{last} on an abstract Vec")
         model(f"Vec::{last}")
